@@ -82,7 +82,7 @@ impl PermMatcher {
     pub fn new(pattern: &str) -> Result<Self, Box<dyn Error>> {
         let (comparison_type, pattern) = parsing::split_comparison_type(pattern);
         let file_pattern = parsing::parse_mode(pattern, false)?;
-        let dir_pattern = parsing::parse_mode(pattern, false)?;
+        let dir_pattern = parsing::parse_mode(pattern, true)?;
         Ok(Self {
             comparison_type,
             file_pattern,
